@@ -1,28 +1,38 @@
 #!/bin/bash
-# Re-evaluates every seeded change kept under seeded/ with the current checks (round 1: A/B, round 2: C/D).
-#   ./seed_all.sh [/tmp/seed/out /tmp/seed2/out]   (sources default to seeded/<id>/ itself)
-extra_for() { case $1 in C02-A) echo "--checks C02,C03,C17";; C03-B) echo "--checks C03,C17";; C06-A|C06-B|C17-A) echo "--checks C06,C17";; C02-C) echo "--checks C02,C16";; C02-D) echo "--checks C02,C03";; C11-C) echo "--checks C11,C12";; esac; }
-for d in $(ls -d seeded/*/); do
-  sid=$(basename $d)
+# Re-evaluates every seeded change kept under seeded/ with the current checks, JOBS at a time (default 4).
+#   ./seed_all.sh [ids...]     results: /var/tmp/vf-seedsrc/<id>.json, one summary line per seed on stdout
+cd "$(dirname "$0")"
+JOBS=${JOBS:-4}
+extra_for() { case $1 in C02-A) echo "--checks C02,C03,C17";; C03-B) echo "--checks C03,C17";; C06-A|C06-B|C17-A) echo "--checks C06,C17";; C02-C) echo "--checks C02,C16";; C02-D|C02-E) echo "--checks C02,C03";; C11-C) echo "--checks C11,C12";; esac; }
+one() {
+  sid=$1; d=seeded/$sid
   src=/var/tmp/vf-seedsrc/$sid; rm -rf $src; mkdir -p $src
   cp $d/patch.diff $d/meta.json $src/
   for f in $d/*_test.go.txt; do [ -f "$f" ] && cp "$f" $src/$(basename ${f%.txt}); done
   [ -d $d/demo ] && cp -r $d/demo $src/demo
-  python3 - $src/meta.json <<'PY'
+  python3 - $src/meta.json $d/meta.json "$sid" <<'PY'
 import json,sys
-m=json.load(open(sys.argv[1])); m.pop('verdicts',None); m.pop('ran',None); json.dump(m,open(sys.argv[1],'w'))
+m=json.load(open(sys.argv[1])); keep={k:m.get(k) for k in ('history','round','status','superseded_by') if k in m}
+json.dump(keep,open('/var/tmp/vf-seedsrc/%s.keep'%sys.argv[3],'w'))
+m.pop('verdicts',None); m.pop('ran',None); json.dump(m,open(sys.argv[1],'w'))
 PY
-  hist=$(python3 -c "import json;print(json.load(open('$d/meta.json')).get('history',''))")
+  if grep -q '"status": "superseded"' $d/meta.json; then echo "$sid superseded (kept for the record, not re-evaluated)"; return; fi
   timeout 3000 ./seed_eval.py $src $sid $(extra_for $sid) > /var/tmp/vf-seedsrc/$sid.json 2>/var/tmp/vf-seedsrc/$sid.err
-  python3 - "$sid" "$hist" <<'PY'
+  python3 - "$sid" <<'PY'
 import json,sys
-sid,hist=sys.argv[1],sys.argv[2]
-r=json.load(open('/var/tmp/vf-seedsrc/%s.json'%sid))
-print(sid,'confirmed=',r.get('confirmed'),{k:(v['detected'],v['exit'],v['wall_s']) for k,v in r['verdicts'].items()}, (r.get('why') or '')[:160])
+sid=sys.argv[1]
+try:
+    t=open('/var/tmp/vf-seedsrc/%s.json'%sid).read(); r=json.loads(t[t.index('{'):])
+except Exception as e:
+    print(sid,'ERROR',e); sys.exit(0)
+print(sid,'confirmed=',r.get('confirmed'),{k:(v['detected'],v['exit'],v['wall_s']) for k,v in r.get('verdicts',{}).items()}, (r.get('why') or '')[:200])
+keep=json.load(open('/var/tmp/vf-seedsrc/%s.keep'%sid))
 p='/verif/seeded/%s/meta.json'%sid
 try:
-    m=json.load(open(p))
-    if hist and 'history' not in m: m['history']=hist; json.dump(m,open(p,'w'),indent=1)
+    m=json.load(open(p)); m.update(keep); json.dump(m,open(p,'w'),indent=1)
 except Exception as e: print('meta',e)
 PY
-done
+}
+export -f one extra_for
+ids=${@:-$(ls seeded)}
+printf "%s\n" $ids | xargs -P $JOBS -I{} bash -c 'one {}'
